@@ -40,6 +40,11 @@ type Lexer struct {
 
 func (lex *Lexer) Lex(lval *yySymType) int {
 	return lex.DoLex(func(tok ybase.Token) {
+		if tok.Type() == METADATA {
+			// white space before a metadata key or value is skipped like before any token;
+			// drop it after them as well, so that `{key = Am}` is `{key=Am}`
+			tok = ybase.NewToken(tok.Type(), strings.TrimRightFunc(tok.Value(), unicode.IsSpace), tok.Start(), tok.End())
+		}
 		lval.token = tok
 	})
 }
